@@ -456,7 +456,7 @@ def gen_case(rng):
             if kind < 0.8:
                 k, v = gen_assign(rng)
                 return {'free': free, 'forest': forest, 'op': ['assign', ['query', ['all'], None, flt], k, v]}
-            return {'free': free, 'forest': forest, 'op': ['query', ['all'], None, flt + [gen_filter(rng, forest, set())][:rng.randint(0, 1)]]}
+            return {'free': free, 'forest': forest, 'op': ['query', ['all'], None, flt + [gen_filter(rng, forest, {'id'})][:rng.randint(0, 1)]]}   # ({'id'}: a keyword occurs once in a call)
     r = rng.random()
     if r < 0.45:
         op = ['query', gen_source(rng, forest, free), gen_key(rng, forest), gen_filters(rng, forest)]
